@@ -311,6 +311,14 @@ def concrete_playback(h, seed, timeout_s, profiles=("dev", "release")):
     data, text, rc, wall, lp = run_kani(h["crate"], [h], seed, timeout_s, 1, "pb", extra=extra)
     m = PLAYBACK_RE.findall(text)
     tests = [t for t in m if "kani_concrete_playback" in t and "Check for `cover`" not in t]
+    fallback = False
+    if not tests:
+        # Kani only emits playback tests for failed *assertion* checks. A failure inside a std panic
+        # path (e.g. raw_vec::capacity_overflow) gets none. Fall back to the tests Kani emits for the
+        # harness's satisfied cover! witnesses (inputs that reach the code under test): if one of them
+        # panics natively the failure is confirmed; if none does, the run stays inconclusive.
+        tests = [t for t in m if "kani_concrete_playback" in t][:3]
+        fallback = True
     if not tests:
         return None, None, "kani produced no concrete playback test for a failed check (log %s)" % lp
     tests = tests[:2]
@@ -318,7 +326,10 @@ def concrete_playback(h, seed, timeout_s, profiles=("dev", "release")):
     repro = any(v[0] in ("panicked", "timeout", "aborted") for v in results.values())
     if all(v[0] == "error" for v in results.values()):
         return None, tests, "native replay did not build/run: %s" % list(results.values())[0][1]
-    return repro, tests, {k: list(v) for k, v in results.items()}
+    detail = {k: list(v) for k, v in results.items()}
+    if fallback:
+        detail["note"] = ["fallback", "no playback test for the failed check itself; replayed the harness's cover witnesses instead"]
+    return repro, tests, detail
 
 
 def load_known():
